@@ -753,7 +753,7 @@ def logv(
             align_corners=align_corners,
             inverse=True,
         )
-        u = compose_flows(flow, u)
+        u = compose_flows(flow, u, align_corners=align_corners)
         v = compose_svfs(u, v, bch_terms=bch_terms, sigma=sigma, spacing=spacing)
     return v
 
